@@ -853,3 +853,18 @@ func writeEvidence(c *Ctx, pd *propDef, r *Report, perRule map[string]map[string
 		broken("write evidence: %v", err)
 	}
 }
+
+// statusOf: the status recorded so far for rule|key ("" if none); a violation
+// wins over a proof.
+func (r *Report) statusOf(rule, key string) string {
+	st := ""
+	for _, o := range r.Obs {
+		if o.Key == rule+"|"+key {
+			if o.Status == stViol {
+				return stViol
+			}
+			st = o.Status
+		}
+	}
+	return st
+}
